@@ -88,7 +88,11 @@ MANIFEST = dict(
        "box step inside the guard region 0 < K_ii < 1e-12 is false for the code as it is (documented guard; witness theorems). "
        "The proofs about the 2-D box solver are about the definition regenerated from the current source (they fail, and the "
        "check reports a broken obligation, if the function changes shape). "
-       "Rounding: theorems are about exact arithmetic. HMG working-set selection, deactivateVariable/scaleBoxConstraints/setLinear are not modelled; "
+       "Rounding: theorems are about exact arithmetic. HMG working-set selection is not modelled in Lean: the same histories are "
+       "run with `solve hmg` against the implementation alone (uncached matrix and 2-row cache, so that the genuine HMG branch "
+       "and not its small-problem LibSVM fallback is taken) and every clause is checked by the independent oracle after every "
+       "step/shrink/unshrink (K-C08[hmg]; open finding F-C08-HMG1: out-of-range read for one-variable problems). "
+       "deactivateVariable/scaleBoxConstraints/setLinear are not modelled; "
        "termination is not claimed.",
   technique="Lean 4 invariant proof by induction over operation sequences + T0 translation of the analytic kernels + "
             "differential correspondence with the C++ (exact / bit-for-bit, ASan/UBSan)",
